@@ -346,6 +346,27 @@ Example C11_old_rounding_witness_slopes_kept :
   end.
 Proof. vm_compute. split; reflexivity. Qed.
 
+(* ------------------------------------------------------------------ the stored document is an unordered mapping *)
+
+(* temperature_constraints is a JSON object read by key: any permutation of its (duplicate-free) entries gives the same
+   constraints and therefore the same three prediction columns -- for every numeric instance (reals and binary64) *)
+Theorem C11_lookup_permutation_invariant : forall (A : Type) (l l' : list (String.string * A)),
+  Permutation.Permutation l l' -> NoDup (map fst l) -> forall k, lookup A k l = lookup A k l'.
+Proof. exact lookup_permutation. Qed.
+Print Assumptions C11_lookup_permutation_invariant.
+
+Theorem C11_prediction_independent_of_key_order : forall (N : num) (c : coeffs N) (l l' : list (String.string * N)) (Ti : N),
+  Permutation.Permutation l l' -> NoDup (map fst l) ->
+  predict_submodel_doc N c l Ti = predict_submodel_doc N c l' Ti.
+Proof. exact predict_key_order_irrelevant. Qed.
+Print Assumptions C11_prediction_independent_of_key_order.
+
+(* the sorted key order of json.dumps(sort_keys=True), binary64 *)
+Example C11_sorted_keys_same_constraints :
+  tconstr_of_assoc FNum [("T_max", 70); ("T_max_seg", 68); ("T_min", 10); ("T_min_seg", 12)]%string%float =
+  tconstr_of_assoc FNum [("T_min", 10); ("T_max", 70); ("T_min_seg", 12); ("T_max_seg", 68)]%string%float.
+Proof. vm_compute. reflexivity. Qed.
+
 (* ------------------------------------------------------------------ non-vacuity *)
 
 (* a smoothed two-sided document strictly inside the fitted range satisfies both hypotheses *)
